@@ -877,8 +877,8 @@ def prop_C10(repo, tier):
                     res.add('ORDER-PRESERVED', f['func'], f['construct'][:160], False, f['detail'], f['file'], f['line'], f['witness'])
     res.floors = {'SORTED-CTORS': 3, 'LT-NUMERIC': 4, 'ID-IS-INT': 3, 'ORDER-PRESERVED': 2}
     res.explanation = (
-        'Static (structural) analysis of the premises of permutation invariance: each of the three collection constructors hands '
-        'cls(...) the result of sorted() over all constructed readers with no key/reverse (SORTED-CTORS, sibling agreement); '
+        'Static analysis of the premises of permutation invariance: each of the three collection constructors, interpreted over a symbolic '
+        'list of sources, hands cls(...) the result of sorted() over all constructed readers with no key/reverse (SORTED-CTORS, CTOR-ARGS, sibling agreement); '
         'MosReader.__lt__ and MosFile.__lt__ compare message_id with < under @total_ordering (LT-NUMERIC); message_id flows through int() '
         'and is stored/returned unchanged by the reader (ID-IS-INT: 9 < 10 < 100); nothing between construction and the fold re-orders '
         'the list (ORDER-PRESERVED, also checked on the interpreted merge loop). NOT decided: equality of merged output (C09 + this).')
@@ -895,9 +895,9 @@ def prop_C11(repo, tier):
     rules_pred.accept_table(res, prog)
     res.floors = {'ACCEPT-TABLE': 60, 'POST-STATE': 2, 'NO-ASSERT': 1}
     res.explanation = (
-        'Static analysis: the statements of MosCollection._validate are evaluated abstractly over the finite input space '
-        '{empty} + same_id x n_create{0,1,2,3+} x n_delete{0,1,2,3+} x allow_incomplete (the code touches these only through comparisons '
-        'with constants, truthiness and all(...), so the abstraction is exact); the resulting truth table, including which exception '
+        'Static analysis: MosCollection(readers, allow_incomplete) is run by the abstract interpreter on one exact representative reader list per point of '
+        '{empty} + same_id x n_create{0,1,2,3} x n_delete{0,1,2,3} x n_roReplace{0,1} x allow_incomplete, in two orders (class objects, ro ids and list '
+        'lengths are concrete, so every test folds; the message objects stay symbolic); the resulting truth table, including which exception '
         'leaves __init__, must equal the specification (ACCEPT-TABLE, with the empty list rejected by InvalidMosCollection rather than '
         'IndexError). NO-ASSERT: no assert statement anywhere in the package (python -O). POST-STATE: the accepted collection keeps the '
         'unique roCreate as running order and the order-preserving remainder as readers.')
@@ -927,9 +927,9 @@ def prop_C18(repo, tier):
     res.explanation = (
         'Static (structural + interpreted) analysis: the file and string constructors have the same shape and from_s3 delegates to '
         'from_string (CTOR-SIBLINGS); the interpreted classification outcomes agree for the three sources (SOURCE-AGREE); the three '
-        'collection constructors share one pipeline (COLL-SIBLINGS/SORTED-CTORS); each reader restores with the same-named constructor '
+        'collection constructors, interpreted over a symbolic list of sources, share one pipeline (COLL-SIBLINGS/SORTED-CTORS/CTOR-ARGS); each reader restores with the same-named constructor '
         'of the classified class and exactly the original arguments (RESTORE-PAIR), records the message id / ro id / class it reports '
-        '(READER-FIELDS) and re-creates the object on every access (FRESH-READ); the S3 listing visits every page and key with the '
+        '(READER-FIELDS) and re-creates the object on every access (FRESH-READ); the S3 listing, interpreted over a symbolic paginator, visits every page and key with the '
         'suffix as only filter (ALL-PAGES). NOT decided: ElementTree on bytes vs str; boto3 behaviour.')
     res.assumptions = ['boto3 paginator/Body API as used today; ElementTree.fromstring accepts bytes and str alike']
     res.trusted_base = TRUSTED[:1]
@@ -962,9 +962,12 @@ def prop_C19(repo, tier):
     res.floors = {'LOOP-CONTAIN': 4, 'FLAG-PLUMB': 4, 'OUTPUT-EXACT': 3, 'EXIT-MAP': 3}
     res.explanation = (
         'Static analysis: the may-raise set of MosFile.from_file is computed by the exception-flow interpreter (today: MosInvalidXML, '
-        'UnknownMosFileType, OSError) and must be covered by the handler inside each per-file loop of detect_or_inspect, which must '
-        'continue with the next file (LOOP-CONTAIN); no inspect() has an exceptional exit (from C20); the merge flags reach the library '
-        'unchanged (FLAG-PLUMB); the written/printed value is str(mc)/mc (OUTPUT-EXACT); errors map to stderr + status 2 (EXIT-MAP); '
+        'UnknownMosFileType, OSError). CLI.detect_or_inspect, do_merge and __call__ are then interpreted for every combination of given / '
+        'missing arguments with the library calls summarised (constructor -> fresh message or one of those exceptions; collection -> object '
+        'or InvalidMosCollection): no such exception leaves the per-file loop or the command, the loop is never left early, every '
+        'constructed message is reported under its own name and inspected iff requested (LOOP-CONTAIN); no inspect() has an exceptional exit '
+        '(from C20); flags, bucket, prefix and suffix reach the library unchanged (FLAG-PLUMB); the written/printed value is str(mc)/mc through '
+        'open(outfile, "w") (OUTPUT-EXACT); errors map to stderr + status 2 (EXIT-MAP); '
         'detect prints the class name with (completed) on the completed branch (DETECT-PRINT). NOT decided: argparse parsing and '
         'byte-exact console output.')
     res.assumptions = ['argparse behaviour; boto3 errors are outside the claim']
@@ -974,8 +977,8 @@ def prop_C19(repo, tier):
 
 PROPS.update({'C10': prop_C10, 'C11': prop_C11, 'C18': prop_C18, 'C19': prop_C19})
 TECHNIQUE.update({
-    'C10': 'static analysis: structural rules on the sorting premises (shape) + interpreted merge loop',
-    'C11': 'static analysis: finite truth table of the acceptance predicate by abstract evaluation (predtable) + no-assert lint',
-    'C18': 'static analysis: sibling-agreement and pairing rules over constructors and readers (shape) + interpreted classification',
-    'C19': 'static analysis: handler coverage of interpreter-computed may-raise sets + dataflow/shape rules on the CLI',
+    'C10': 'static analysis: abstract interpretation of the collection constructors over a symbolic source list (ctorflow) + structural rules on the ordering dunders + interpreted merge loop',
+    'C11': 'static analysis: finite truth table of the acceptance predicate by abstract interpretation of MosCollection.__init__/_validate on exact representative reader lists (predtable) + no-assert lint',
+    'C18': 'static analysis: abstract interpretation of the constructors (ctorflow), of the S3 listing over a symbolic paginator (s3flow) and of classification; pairing rules over readers (shape)',
+    'C19': 'static analysis: abstract interpretation of the CLI entry points over all argument combinations with interpreter-computed may-raise sets of the library calls (cliflow)',
 })
